@@ -43,7 +43,7 @@ def trav_queries(nv, starts, unis, modes, kinds=("bft", "dftr", "dfti"), via="-"
                     yield "%s %s V%d %d %d %s %s %s" % (t, u, s, d, k, via, res, listmode)
 
 
-def search_queries(nv, starts, unis, vals=(0, 1, 2, 5, 6)):
+def search_queries(nv, starts, unis, vals=(0, 1, 2, 5, 6, 7)):
     for s in starts:
         for u in unis:
             for t in ("bfs", "dfsr", "dfsi"):
@@ -168,6 +168,18 @@ class TravBase(Check):
                 else:
                     qs += ["%s %s V0 0 1 - - list" % (t, uni), "%s %s V%d 1 1 - - gen" % (t, uni, hang - 3)]
         yield run_script(real, lines + qs)
+        if not quick or rng.random() < 0.5:
+            # --- a chain 850 levels deep (the recursive forms still manage it) with links from its far end back
+            #     to vertices listed hundreds of levels earlier, and a branch hanging below that depth
+            n = 850
+            lines = ["reset"] + ["vertex V"] * (n + 2)
+            for i in range(n - 1):
+                lines.append("edge D V%d V%d" % (i, i + 1))
+            lines += ["edge D V%d V3" % (n - 1), "edge D V%d V%d" % (n - 2, n), "edge D V%d V%d" % (n, n + 1),
+                      "edge U V%d V500" % (n + 1)]
+            kinds_ = ("bfs", "dfsr", "dfsi") if self.searches else ("bft", "dftr", "dfti")
+            qs = ["%s - V0 0 1" % t for t in kinds_] if self.searches else ["%s - V0 0 1 - - list" % t for t in kinds_]
+            yield run_script(real, lines + qs)
         if self.searches:
             return
         # --- dense graph ---
